@@ -301,26 +301,24 @@ func checkC09(c *Ctx, r *Report) {
 				case len(incs) == 0:
 					reason = "no increment on this path"
 				default:
-					v := p.Resolve(seqVal)
+					// as values along the path: with c the counter when the closure began, the number
+					// serialised is c+1 and so is the counter when the datagram is sent — whether the
+					// code computes c+1 once and commits it, increments first and reads back, or
+					// computes it twice
+					occs := p.OccsPos()
 					inc := ins[incs[0]].(*ssa.Store)
-					if v == p.Resolve(inc.Val) && incs[0] < sendAt {
-						// the very value committed to the counter (before or after the commit)
+					root := p.AP(inc.Addr).Root
+					seqPV := p.evalAt(occs, seqValAt, occs[seqValAt].Ctx, seqVal)
+					cnt := p.fieldAt(occs, sendAt, root, counterSel)
+					switch {
+					case cnt.Loc == "" || cnt.Off != 1:
+						reason = "the counter is not its starting value + 1 when the datagram is sent"
+					case seqPV.Loc == cnt.Loc && seqPV.Off == 0:
+						reason = "Sequence is the counter value read before the increment (post-increment: the previous number is re-used)"
+					case !seqPV.same(cnt):
+						reason = "Sequence is not derived from the inbound counter: " + apOf(p.Resolve(seqVal)).String()
+					default:
 						ok = true
-					} else if ld, isLd := v.(*ssa.UnOp); isLd && ld.Op == token.MUL && p.AP(ld.X).SelString() == counterSel && p.AP(ld.X).Root == p.AP(inc.Addr).Root {
-						// a read of the counter: it must happen after the increment
-						at := -1
-						for k, in := range ins {
-							if in == ssa.Instruction(ld) {
-								at = k
-							}
-						}
-						if at > incs[0] {
-							ok = true
-						} else {
-							reason = "Sequence is the counter value read before the increment (post-increment: the previous number is re-used)"
-						}
-					} else {
-						reason = "Sequence is not derived from the inbound counter: " + apOf(v).String()
 					}
 				}
 				r.Check(ok, fname+"|path "+label, s.Send.Pos(), "Sequence = counter after increment", reason)
